@@ -12,6 +12,7 @@ import TLX.Lemmas.Metadata
 import TLX.Props.C08Session
 import TLX.Props.C13Session
 import TLX.Props.C03
+import TLX.Props.C07Session
 set_option linter.unusedSimpArgs false
 namespace TLX.Lemmas.Pipeline
 open TLX TLX.Cipher TLX.RecordLayer TLX.Spec.TlsSender TLX.Props.C01 TLX.Lemmas.RecLayer
@@ -511,5 +512,129 @@ theorem wireRecs_carriers (ws : List Wire) (cars : List (List Nat)) :
         rcases hr with rfl | hr
         · exact Or.inl rfl
         · exact Or.inr (ih cs r hr)
+
+-- ------------------------------------------------------------------ reassembly: every record handed on has a carrier
+open TLX.Reassembly TLX.Lemmas.Metadata in
+/-- `Lemmas.Metadata.flush_carriers` without the hypothesis that buffered packets are non-empty: the packet that holds
+    the record's first byte always passes the source's test `index < end and index + record_len > start` -/
+theorem flush_carriers_nonempty (buf : List Seg) (recs : List Reassembly.Rec) (h : flush buf = some recs) :
+    ∀ r ∈ recs, r.2 ≠ [] := by
+  intro r hr
+  obtain ⟨j, hj, rfl⟩ := List.getElem_of_mem hr
+  unfold flush at h
+  by_cases hnd : needData (bufData buf) 0 = true
+  · rw [if_pos hnd] at h; cases h
+  · rw [if_neg hnd] at h
+    simp only [Option.some.injEq] at h
+    subst h
+    have hnd' : needData (bufData buf) 0 = false := by simpa using hnd
+    obtain ⟨hc, h5, hin⟩ := records_spec (bufData buf) (ranges buf 0) 0 (Nat.zero_le _) hnd' j hj
+    simp only [Nat.zero_add] at hc h5 hin
+    rw [hc, carriers_ranges]
+    obtain ⟨i, hi, h1, h2⟩ := exists_seg_of_pos buf
+      ((((records (bufData buf) (ranges buf 0) 0).take j).map (·.1.length)).sum) buf.length (Nat.le_refl _)
+      (by rw [segStart_length]; omega)
+    intro hnil
+    rw [List.map_eq_nil_iff, List.filter_eq_nil_iff] at hnil
+    apply hnil i (List.mem_range.mpr hi)
+    simp only [Bool.and_eq_true, decide_eq_true_eq]
+    omega
+
+open TLX.Reassembly in
+theorem deliver_out (W : Nat) (st : Reassembly.St) (base : Nat) (buf : List Seg) :
+    (deliver W st base buf).out = st.out ∨
+      ∃ b recs, flush b = some recs ∧ (deliver W st base buf).out = st.out ++ recs := by
+  unfold deliver
+  split
+  · exact Or.inl rfl
+  · split
+    · exact Or.inl rfl
+    · split
+      · exact Or.inl rfl
+      · split
+        · exact Or.inl rfl
+        · rename_i recs hf
+          exact Or.inr ⟨_, recs, hf, rfl⟩
+
+open TLX.Reassembly in
+theorem stepW_out_carriers (W : Nat) (st : Reassembly.St) (p : Seg) (h : ∀ r ∈ st.out, r.2 ≠ []) :
+    ∀ r ∈ (stepW W st p).out, r.2 ≠ [] := by
+  unfold stepW
+  split
+  · exact h
+  · unfold extract
+    split
+    · exact h
+    · rcases deliver_out W { st with seen := st.seen ++ [p.seq], buf := st.buf ++ [p] }
+        (baseOf W st.next _ _) (sortBy (syncKey W (baseOf W st.next _ _)) (_ :: _)) with ho | ⟨b, recs, hf, ho⟩
+      · rw [ho]; exact h
+      · rw [ho]
+        intro r hr
+        rcases List.mem_append.mp hr with hr | hr
+        · exact h r hr
+        · exact flush_carriers_nonempty b recs hf r hr
+
+-- ------------------------------------------------------------------ the per-packet fold = reassembly, then one session run
+/-- the reassembly half of `Pipeline.feedPkt`: new reassembly states (client, server) and the records released, as
+    `Session` gets them (it does not depend on the session, the key log or `-a`) -/
+def reasmPkt (info : Nat → Pipeline.Info) (server : MainLoop.Endpoint) (R : Reassembly.St × Reassembly.St)
+    (p : MainLoop.Pkt) : (Reassembly.St × Reassembly.St) × List (Session.Rec × Bool) :=
+  let srv := p.src == server
+  let seg : Reassembly.Seg := ⟨p.tag, (info p.tag).seq, p.payload⟩
+  let st0 := if srv then R.2 else R.1
+  let st1 := Reassembly.step { st0 with out := [] } seg
+  ((if srv then (R.1, st1) else (st1, R.2)), st1.out.map fun r => (⟨r.1, r.2⟩, srv))
+
+/-- all records of a connection in the order `get_tls_records` hands them to `handle_tls_record` -/
+def released (info : Nat → Pipeline.Info) (server : MainLoop.Endpoint) :
+    Reassembly.St × Reassembly.St → List MainLoop.Pkt → List (Session.Rec × Bool)
+  | _, [] => []
+  | R, p :: ps => (reasmPkt info server R p).2 ++ released info server (reasmPkt info server R p).1 ps
+
+def reasmFinal (info : Nat → Pipeline.Info) (server : MainLoop.Endpoint) :
+    Reassembly.St × Reassembly.St → List MainLoop.Pkt → Reassembly.St × Reassembly.St
+  | R, [] => R
+  | R, p :: ps => reasmFinal info server (reasmPkt info server R p).1 ps
+
+theorem feedPkt_eq (O : Session.Ops Dec) (m : Bool) (info : Nat → Pipeline.Info) (server : MainLoop.Endpoint)
+    (L : Pipeline.Live) (p : MainLoop.Pkt) :
+    (Pipeline.feedPkt O m info server L p).sess = Session.run O m L.sess (reasmPkt info server (L.rc, L.rs) p).2 ∧
+    ((Pipeline.feedPkt O m info server L p).rc, (Pipeline.feedPkt O m info server L p).rs)
+      = (reasmPkt info server (L.rc, L.rs) p).1 := by
+  unfold Pipeline.feedPkt reasmPkt Session.run
+  simp only [List.foldl_map]
+  cases p.src == server <;> exact ⟨rfl, rfl⟩
+
+/-- the session of a connection after all its packets = ONE `Session.run` over the released records -/
+theorem feed_eq_run (O : Session.Ops Dec) (m : Bool) (info : Nat → Pipeline.Info) (server : MainLoop.Endpoint)
+    (L : Pipeline.Live) (pkts : List MainLoop.Pkt) :
+    (pkts.foldl (Pipeline.feedPkt O m info server) L).sess
+      = Session.run O m L.sess (released info server (L.rc, L.rs) pkts) := by
+  induction pkts generalizing L with
+  | nil => rfl
+  | cons p ps ih =>
+    obtain ⟨h1, h2⟩ := feedPkt_eq O m info server L p
+    simp only [List.foldl_cons, released]
+    rw [ih, h1, Session.run_append, h2]
+
+theorem released_append (info : Nat → Pipeline.Info) (server : MainLoop.Endpoint) (R : Reassembly.St × Reassembly.St)
+    (a b : List MainLoop.Pkt) :
+    released info server R (a ++ b) = released info server R a ++ released info server (reasmFinal info server R a) b := by
+  induction a generalizing R with
+  | nil => rfl
+  | cons p ps ih => simp only [List.cons_append, released, reasmFinal, ih, List.append_assoc]
+
+theorem released_carriers (info : Nat → Pipeline.Info) (server : MainLoop.Endpoint) (R : Reassembly.St × Reassembly.St)
+    (pkts : List MainLoop.Pkt) : ∀ r ∈ released info server R pkts, r.1.carriers ≠ [] := by
+  induction pkts generalizing R with
+  | nil => simp [released]
+  | cons p ps ih =>
+    intro r hr
+    simp only [released, List.mem_append] at hr
+    rcases hr with hr | hr
+    · simp only [reasmPkt, List.mem_map] at hr
+      obtain ⟨q, hq, rfl⟩ := hr
+      exact stepW_out_carriers _ _ _ (by simp) q hq
+    · exact ih _ r hr
 
 end TLX.Lemmas.Pipeline
